@@ -152,6 +152,14 @@ def sstr(name, n, lo=0, hi=0x7FF):
                    for i in range(n))
 
 
+def join(sep, parts):
+    """sep.join(parts) that also works when parts are symbolic"""
+    parts = list(parts)
+    if MODE == 'sym' and any(is_sseq(p) for p in parts):
+        return lift(sep).join(parts)
+    return sep.join(parts)
+
+
 def assume(cond):
     if MODE == 'sym':
         _ctx().assume(cond)
